@@ -698,6 +698,9 @@ def c14(v):
                 V.append("C14 %s is_running()=%s at t=%d but its body %s begun" % (n, running, e[0], "has" if begun else "has not"))
             if created and not begun and running:
                 V.append("C14 %s waits for a window slot but is reported running" % n)
+            # a job whose task was cancelled while unfinished is never reported done (bodies honour cancellation)
+            if done and n in v.cancel and v.cancel[n][0] < pidx:
+                V.append("C14 %s was cancelled at t=%d while unfinished, yet is_done() holds at t=%d" % (n, v.cancel[n][1], e[0]))
             # results
             if finished:
                 f = v.fin[n]
